@@ -24,7 +24,7 @@ META = {
     "assumptions": ["real operands (the interface recursions do not conjugate the test core)",
                     "generic sizes: rank families at different positions / of different trains are independent",
                     "the band-diagonal products (shifted diagonals re-padded by their offset) are not contraction networks and are not decided"],
-    "floors": {"ENRICH-WIDTH": 1, "ZERO-NORM": 6, "ARNOLDI-SEED": 1, "E5-CHAIN": 18, "IFACE-TYPE": 30, "DEF-ATTR": 12, "E3-PARAM": 3},
+    "floors": {"SCALE-FREE": 2, "ENRICH-WIDTH": 1, "ZERO-NORM": 6, "ARNOLDI-SEED": 1, "E5-CHAIN": 18, "IFACE-TYPE": 30, "DEF-ATTR": 12, "E3-PARAM": 3},
 }
 ANCHORS = ["solvers.amen_solve", "solvers._amen_solve_python", "solvers._local_product", "solvers._LinearOp.matvec", "solvers._LinearOp.apply_prec",
            "solvers._compute_phi_fwd_A", "solvers._compute_phi_bck_A", "solvers._compute_phi_fwd_rhs", "solvers._compute_phi_bck_rhs",
@@ -48,6 +48,8 @@ def check(model: Model, tier: str):
     obs += rule_zero_norm(model, "solvers._amen_solve_python")
     from ..normguard import rule_enrich_width
     obs += rule_enrich_width(model, "solvers._amen_solve_python")
+    from ..normguard import rule_scale_free
+    obs += rule_scale_free(model, "solvers._amen_solve_python")
     obs += rule_arnoldi_seed(model)
     fs = [model.func(a) for a in ANCHORS]
     exc = {("solvers._amen_solve_python", "sig:for:range(_)"): "read only in the verbose report after a zero-sweep run (nswp = 0)",
